@@ -187,7 +187,7 @@ class FromChunkRelativeLocation(Case):
     location (chunk of either strand) is the interval whose chromosome location is the lift of that location - same
     blocks, and the CHROMOSOME strand (on a reverse-strand chunk the chunk-relative strand is the flipped one); its own
     chunk-relative location is the location it was built from."""
-    props = ("C04", "C07", "C06", "C14", "C11")
+    props = ("C04", "C07", "C06", "C14", "C11", "C05")
 
     def __init__(self, kind, n):
         self.kind, self.n = kind, n
@@ -199,9 +199,15 @@ class FromChunkRelativeLocation(Case):
         cname = cls.split(".")[-1]
         self.name = f"{cname}.from_chunk_relative_location[{n} block(s), chunk of either strand]"
         extra = ", cds_frames=frames" if kind == "cds" else ""
-        self.call = (f"(lambda y: (y.chromosome_location, y.strand, y.chunk_relative_location))"
+        self.call = (f"(lambda y: (y.chromosome_location, y.strand, y.chunk_relative_location, y.start, y.end, "
+                     f"y._genomic_starts, y._genomic_ends))"
                      f"({cname}.from_chunk_relative_location(x.chunk_relative_location{extra}))")
         self.ensures = {
+            # the stored block lists are in CHROMOSOME order (ascending) whatever the strand of the chunk, and start /
+            # end are the chromosome bounds (exports, dictionaries and identifiers read these lists)
+            "stored-lists-ascending-and-bounds": lambda i, r: And(
+                len(r[5]) == len(i.blocks), r[3] == i.blocks[0][0], r[4] == i.blocks[-1][1],
+                *[And(r[5][k] == i.blocks[k][0], r[6][k] == i.blocks[k][1]) for k in range(len(i.blocks))]),
             "chromosome-blocks-are-the-lift": lambda i, r: And(
                 len(_bl(r[0])) == len(i.blocks), *[And(a[0] == b[0], a[1] == b[1]) for a, b in zip(_bl(r[0]), i.blocks)]),
             "chromosome-strand": lambda i, r: _same_strand_val(r[1], i.strand),
@@ -240,7 +246,7 @@ class FromChunkRelativeLocation(Case):
     def observe(self, r):
         from .c02_single import obs_loc
         from pyvc.check import default_observe as o
-        return [obs_loc(r[0])[:3], o(r[1]), obs_loc(r[2])[:3]]
+        return [obs_loc(r[0])[:3], o(r[1]), obs_loc(r[2])[:3], o(r[3]), o(r[4]), [o(x) for x in r[5]], [o(x) for x in r[6]]]
 
 
 def _bl(loc):
@@ -348,6 +354,58 @@ class LiftThroughNamedPlacements(Case):
         q1 = q0 + b + rng.randint(0, 3)
         p1 = p0 + q1 + rng.randint(0, 3)
         return dict(p0=p0, p1=p1, q0=q0, q1=q1, a=a, b=b, seq="".join(rng.choice("ACGT") for _ in range(p1 + rng.randint(0, 3))))
+
+
+class FromLocationRefusesChunkAncestry(Case):
+    """X.from_location(loc) takes chromosome coordinates: a location with a sequence chunk ANYWHERE in its ancestry -
+    directly on the chunk, or on a sub-region that is itself placed on the chunk - is refused with the documented
+    NoSuchAncestorException (from_chunk_relative_location is the constructor for it), never read as chromosome
+    coordinates."""
+    props = ("C04", "C19", "C07")
+    module = "gene.feature"
+
+    def __init__(self, kind, depth):
+        self.kind, self.depth = kind, depth
+        cls = {"feature": "gene.feature.FeatureInterval", "transcript": "gene.transcript.TranscriptInterval"}[kind]
+        cname = cls.split(".")[-1]
+        self.func = cls + ".from_location"
+        self.name = (f"{cname}.from_location[location {'directly on a sequence chunk' if depth == 1 else 'on a sub-region placed on a sequence chunk'}]"
+                     ": refused")
+        self.call = f"{cname}.from_location(loc) is not None"
+        self.raises = {"NoSuchAncestorException": lambda i: True}
+        self.ensures = {}
+
+    def inputs(self, S):
+        cp, cs, ce = chunk_parent(S)
+        a, b = S.int("a"), S.int("b")
+        plus = S.enum_const(STRAND, "PLUS")
+        if self.depth == 1:
+            S.assume(And(0 <= a, a < b, b <= ce - cs))
+            loc = S.new(SINGLE, a, b, plus, parent=cp)
+        else:
+            p0, p1 = S.int("p0"), S.int("p1")
+            S.assume(And(0 <= p0, p0 < p1, p1 <= ce - cs, 0 <= a, a < b, b <= p1 - p0))
+            chunk_seq = cp.sequence if S.mode == "native" else S.e.getattr(cp, "sequence")
+            sub = S.new(PARENT, id="sub", sequence_type="subregion",
+                        parent=S.new(PARENT, location=S.new(SINGLE, p0, p1, plus), sequence=chunk_seq))
+            loc = S.new(SINGLE, a, b, plus, parent=sub)
+        ns = NS(loc=loc)
+        for q in ("gene.feature.FeatureInterval", "gene.transcript.TranscriptInterval"):
+            ns.__dict__[q.split(".")[-1]] = S.cls(q)
+        return ns
+
+    def samples(self, rng):
+        d = sample_chunk(rng)
+        n = d["chunk_end"] - d["chunk_start"]
+        if n < 4:
+            d["chunk_end"] += 4
+            d["chunk_seq"] += "ACGT"
+            n += 4
+        p0 = rng.randint(0, n - 3)
+        p1 = rng.randint(p0 + 2, n)
+        a = rng.randint(0, p1 - p0 - 1)
+        d.update(p0=p0, p1=p1, a=a, b=rng.randint(a + 1, p1 - p0))
+        return d
 
 
 class ChunkInsideIntron(Case):
@@ -689,6 +747,7 @@ CASES = [LiftToChunk(), LiftRoundTrip(), LiftChunkToChunk(), LiftNestedToChunk()
          LiftStrandedChunkToChunk()]
 CASES += [FromChunkRelativeLocation(k, n) for k in ("feature", "transcript", "cds") for n in (1, 2)]
 CASES += [CodingTranscriptFromChunk(), LiftThroughNamedPlacements()]
+CASES += [FromLocationRefusesChunkAncestry(k, d) for k in ("feature", "transcript") for d in (1, 2)]
 CASES += [ChunkInsideIntron(k) for k in ("feature", "transcript", "cds")]
 CASES += [LiftCompoundToChunk(2), LiftCompoundToChunk(3)]
 CASES += [ChildLocationOfParent(n, via) for n in (1, 2) for via in (
